@@ -105,9 +105,50 @@ def step_cases():
                         yield {"sub": "steps", "engine": engine, "script": sc, "dt": dt * scale, "t_max": tmax * scale}
 
 
+def check_factory(case):
+    """Two calls of one engine factory of engine_collection give two engine OBJECTS whose own status does not follow
+    the other one's set-up (the native library is redirected to the fresh build; the factory itself is the library's)."""
+    out = []
+    name = case["factory"]
+    try:
+        import ctypes
+        from strengths import engine_collection as ec
+        fac = getattr(ec, name, None)
+        if fac is None or not hasattr(ec, "ctypes"):
+            return [], 1
+        lib = ctypes.CDLL(eng.so_path(VARIANT))
+        shim = eng._CtypesShim(lib)
+        real = ec.ctypes
+        ec.ctypes = shim
+        try:
+            a = fac()
+            b = fac()
+        finally:
+            ec.ctypes = real
+        if a is b:
+            out.append(("%s:factories:%s:same-object-returned-twice" % (PID, name), "%s() is %s(): two users of the factory share one engine object" % (name, name)))
+            return out, 0
+        kind = (case["kind"], "grid")
+        a.setup(models.build_script(lc.script_spec(kind, "a")))
+        n = 0
+        while a.iterate() and n < 1000:
+            n += 1
+        done = a.is_complete()
+        b.setup(models.build_script(lc.script_spec(kind, "c")))
+        if done and not a.is_complete():
+            out.append(("%s:factories:%s:status-of-first-object-follows-second-set-up" % (PID, name),
+                        "first object complete; after the second object's setup() the first one reports is_complete() = False"))
+        b.finalize()
+    except Exception as ex:
+        out.append(("%s:factories:unexpected-exception" % PID, "%s: %s" % (type(ex).__name__, ex)))
+    return out, 0
+
+
 def check_simple(case):
     """termination / step-count cases: S, iterate to completion (bounded), observers, F, F."""
     out = []
+    if case["sub"] == "factories":
+        return check_factory(case)[0]
     try:
         script = models.build_script(case["script"])
         e = eng.make_engine(case["engine"], VARIANT)
@@ -151,7 +192,7 @@ def check_simple(case):
 
 def check_case(case):
     """Replay entry: one history or one simple case."""
-    if case.get("sub") in ("termination", "steps", "extinction"):
+    if case.get("sub") in ("termination", "steps", "extinction", "factories"):
         return check_simple(case)
     if case.get("sub") == "tla":
         nodes, edges, init, _ = tlaconf.run_tlc(TLA_K, len(case["ops"]), "replay")
@@ -271,6 +312,10 @@ def build_jobs(tier, seed0, d1=None, d2=None, two=True, dlm=None):
                      len(nodes) * len(kinds_t), len(allowed) * len(kinds_t)))
     except tlaconf.ModelUnavailable as e:
         subs.append(("TLA+ model conformance NOT RUN: %s" % str(e)[:300], 0, 0))
+    fcs = [{"sub": "factories", "factory": f, "kind": k} for f, k in (("default_engine", "euler"), ("euler_engine", "euler"),
+                                                                       ("tauleap_engine", "tauleap"), ("gillespie_engine", "gillespie"))]
+    jobs += [("simple", c) for c in fcs]
+    subs.append(("engine factories of engine_collection: two calls give two objects with their own status (4 factories)", len(fcs), len(fcs)))
     stc = list(step_cases())
     jobs += [("simple", c) for c in stc]
     subs.append(("fixed-step completion count: 3 dt x 8 t_max x 4 time scales (1, 2^-40, 1e-10, 1e6) x 2 engines x {grid,graph}", len(stc), len(stc)))
